@@ -24,6 +24,11 @@ def index_of(t, S, x):
     if isinstance(t, tuple) and len(t) == 5 and t[0] == 'uf' and t[1] == 'poly::Evaluate::evaluate' and t[4] == x \
             and isinstance(t[3], tuple) and t[3][0] == 'elem' and t[3][1] == S and t[3][3] == 'poly':
         return t[3][2]
+    if isinstance(t, tuple) and len(t) == 5 and t[0] == 'uf' and t[1] == 'poly::Evaluate::evaluate' and t[4] == x \
+            and isinstance(t[3], tuple) and t[3][0] in ('sel', 'selv'):
+        # the piece is chosen first and evaluated once: T::evaluate(if c {A} else {B}, x) = if c {…(A, x)} else {…(B, x)}
+        c, A, B = t[3][1], t[3][2], t[3][3]
+        return index_of(('sel', c, t[:3] + (A, x), t[:3] + (B, x)), S, x)
     return None
 
 
@@ -90,7 +95,9 @@ def check(cx):
         found, fi = ev['found'], ev['idx']
         sterm = found[1]
         ivar, P = ev['ivar'], ev['pred']
-        ok_first = whole_view(sterm, 'self.segments') and not ev['rev'] and fi[0] == 'firstidx'
+        # all segments, or all but the last one (the last one is the fallback anyway: a first match there changes nothing)
+        front_only = sterm == ('stream', 'src', ('view', S, ('ic', 0), ('i-', lenS, ('ic', 1))), ('str', 'ref'))
+        ok_first = (whole_view(sterm, 'self.segments') or front_only) and not ev['rev'] and fi[0] == 'firstidx'
         rep.ob('first', inst, ok_first, 'search domain: ' + term_str(sterm)[:200], fn=inst, file=file, line=line,
                msg='the search is not a forward first-match search over all segments: %s%s' % (term_str(sterm)[:200], ' (from the back)' if ev['rev'] else ''))
         pc = pred_class(P, ('elem', S, ivar, 'end'), x)
